@@ -385,6 +385,21 @@ func genNpm(r *rand.Rand) npmCase {
 			}
 		}
 	}
+	// the same registry package through two or three entries of "dependencies": its own name and npm: aliases, at the
+	// identical or another range (kept out of the other two sections: their cascade replaces by package name, in Go map order)
+	if r.Intn(4) == 0 {
+		lib := []string{"lib", "@sc/lib.js"}[r.Intn(2)]
+		rng := npmVers[r.Intn(4)]
+		c.sec[2] = append(c.sec[2], kv{lib, rng})
+		for i, n := 0, 1+r.Intn(2); i < n; i++ {
+			ar := rng
+			if r.Intn(3) == 0 {
+				ar = npmVers[r.Intn(4)]
+			}
+			c.sec[2] = append(c.sec[2], kv{fmt.Sprintf("lib-legacy%d", i+1), "npm:" + lib + "@" + ar})
+		}
+		r.Shuffle(len(c.sec[2]), func(i, j int) { c.sec[2][i], c.sec[2][j] = c.sec[2][j], c.sec[2][i] })
+	}
 	// updates are drawn from what Read will report: every entry as (real name, alias, version)
 	type req struct {
 		name, ka string
@@ -414,11 +429,16 @@ func genNpm(r *rand.Rand) npmCase {
 		}
 	}
 	r.Shuffle(len(reqs), func(i, j int) { reqs[i], reqs[j] = reqs[j], reqs[i] })
+	libTo := npmTo[r.Intn(3)]
 	for _, q := range reqs {
-		if r.Intn(2) == 0 {
+		isLib := q.name == "lib" || q.name == "@sc/lib.js"
+		if r.Intn(2) == 0 && !(isLib && r.Intn(4) != 0) {
 			continue
 		}
 		u := npmUp{name: q.name, ka: q.ka, hasKA: q.hasKA, from: q.ver, to: npmTo[r.Intn(len(npmTo))]}
+		if isLib && r.Intn(4) != 0 {
+			u.to = libTo // all entries of the package relaxed to the same new range
+		}
 		if r.Intn(12) == 0 {
 			u.from = "0.0.0-wrong"
 		}
